@@ -40,6 +40,13 @@ func main() {
 	kit.WriteFile(root, "404.html", "CUSTOM-404-PAGE")
 	kit.WriteFile(root, "generic.html", "GENERIC-ERROR-PAGE")
 	kit.WriteFile(root, "plain.txt", "PLAIN-FILE")
+	// overlapping requests first (E2, deterministic); the sweep below serves many requests at once on the real pools
+	overlapPhase(rep, root)
+	if rep.ViolationCount() > 0 {
+		rep.Capped("the sweep of single requests was skipped: overlapping requests already differ from the same requests served alone")
+		rep.Finish()
+		return
+	}
 	p404 := filepath.Join(root, "404.html")
 	pgen := filepath.Join(root, "generic.html")
 	menu := []string{
@@ -52,7 +59,7 @@ func main() {
 		"errors",
 		"errors {\n\t\t404 " + p404 + "\n\t\t* " + pgen + "\n\t}",
 		"errors visible",
-		"errors {\n\t\t404 " + root + "\n\t}", // (the error page is a directory)
+		"errors {\n\t\t404 " + root + "\n\t}",   // (the error page is a directory)
 		"errors {\n\t\t404 /proc/self/mem\n\t}", // (the error page opens, reading it fails)
 		"templates",
 		"mime .html text/html",
